@@ -427,7 +427,15 @@ int main(int argc, char **argv)
         const quint16 type = quint16(rc.value(QStringLiteral("type")).toInt());
         const QByteArray key = bytes(rc.value(QStringLiteral("keylen")).toInt(), 7);
         const bool fp = rc.value(QStringLiteral("fp")).toBool();
-        if (part == QLatin1String("roundtrip")) {
+        if (part == QLatin1String("binkey")) {
+            const QByteArray bkey = QByteArray::fromHex(rc.value(QStringLiteral("key")).toString().toLatin1());
+            const QByteArray text = bytes(37, 5);
+            ++ctx.evaluations;
+            if (QXmppUtils::generateHmacSha1(bkey, text) != QMessageAuthenticationCode::hash(text, bkey, QCryptographicHash::Sha1) ||
+                !checkIntegrityAndFingerprint(build(alpha, reps[0], 0x0001).encode(bkey, true), bkey, true).isEmpty()) {
+                ctx.violation(QStringLiteral("C14/hmac-wrong-for-binary-key"), QStringLiteral("HMAC differs from RFC 2104 for binary key"), rc);
+            }
+        } else if (part == QLatin1String("roundtrip")) {
             roundTrip(c, idx, type, key, fp);
         } else {
             const QByteArray orig = build(alpha, idx, type).encode(key, fp);
@@ -507,6 +515,41 @@ int main(int argc, char **argv)
                     roundTrip(c, reps[r], 0x0001, bytes(kl, 7), fp);
                     ctx.count(QStringLiteral("keylen_sweep"));
                 }
+            }
+        }
+    }
+    // binary keys: zero bytes at the start / middle / end, all-zero, all-0xff (e.g. TURN long-term keys are MD5 digests)
+    {
+        QList<QByteArray> binKeys;
+        for (int len : { 16, 20, 32, 64 }) {
+            for (int zeroAt : { 0, len / 2, len - 1 }) {
+                QByteArray k = bytes(len, 11);
+                for (int i = 0; i < k.size(); ++i) {
+                    if (k[i] == 0) {
+                        k[i] = 1;
+                    }
+                }
+                k[zeroAt] = 0;
+                binKeys << k;
+            }
+            binKeys << QByteArray(len, 0) << QByteArray(len, char(0xff));
+        }
+        for (const auto &key : binKeys) {
+            if (!ctx.mine()) {
+                continue;
+            }
+            ++ctx.evaluations;
+            ++ctx.nontrivial;
+            ctx.count(QStringLiteral("binary_keys"));
+            const QByteArray text = bytes(37, 5);
+            if (QXmppUtils::generateHmacSha1(key, text) != QMessageAuthenticationCode::hash(text, key, QCryptographicHash::Sha1)) {
+                ctx.violation(QStringLiteral("C14/hmac-wrong-for-binary-key"), QStringLiteral("generateHmacSha1 differs from RFC 2104 for a %1-byte key containing 0x00/0xff bytes: %2").arg(key.size()).arg(QString::fromLatin1(key.toHex())),
+                              caseOf(QStringLiteral("binkey"), { { QStringLiteral("key"), QString::fromLatin1(key.toHex()) } }));
+            }
+            const QByteArray enc = build(alpha, reps[0], 0x0001).encode(key, true);
+            const QString integ = checkIntegrityAndFingerprint(enc, key, true);
+            if (!integ.isEmpty()) {
+                ctx.violation(QStringLiteral("C14/hmac-wrong-for-binary-key"), integ, caseOf(QStringLiteral("binkey"), { { QStringLiteral("key"), QString::fromLatin1(key.toHex()) } }));
             }
         }
     }
